@@ -100,11 +100,39 @@ def offset_class(rng, n):
     return rng.randrange(0, n)
 
 
-def inject(rng, name, stored):
+def structured_tail(rng, stored, content, cont):
+    """bytes that really do follow compressed streams in the wild: a second member (`cat a.gz b.gz`), the file twice,
+    zero padding, or a stray little-endian length close to the real decoded length (the gz/lz4 readers take sizes from
+    fixed places at the end / start of the file)"""
+    R = len(content)
+    style = rng.choice(("second_member", "second_member", "self_twice", "zero_pad", "le32", "le32", "pad_le32"))
+    if style == "second_member" and cont in ("gz", "bz2", "xz", "lz4"):
+        p = world.TextLogParams(n_msgs=rng.choice((1, 2, 5, 30, 200)), src_letter=b"G", cont_p=0.2)
+        c2, _, _ = world.gen_text_log(rng, p)
+        tail, _ = world.random_container(rng, cont, c2, 1600000000, "g.log")
+        return stored + tail, {"tail": style, "second_plain_len": len(c2), "first_plain_len": R}
+    if style == "self_twice":
+        return stored + stored, {"tail": style}
+    if style == "zero_pad":
+        k = rng.choice((1, 3, 4, 8, 511, 512, 1024))
+        return stored + b"\x00" * k, {"tail": style, "len": k}
+    v = rng.choice((R + 1, R + rng.randint(1, 400), R + rng.randint(1, 60000), max(0, R - 1), 2 * R, R // 2, 0, 1, R)) & 0xFFFFFFFF
+    pad = b"\x00" * rng.choice((0, 4, 12)) if style == "pad_le32" else b""
+    return stored + pad + v.to_bytes(4, "little"), {"tail": "le32", "value": v, "plain_len": R, "pad": len(pad)}
+
+
+def inject(rng, name, stored, content=None, cont=None):
     """-> (name, damaged bytes, fault descr)"""
     f = rng.choice(("truncate", "truncate", "flip", "flip", "multi_flip", "zero_fill", "random_bytes", "wrong_name",
-                    "garbage_tail", "none"))
+                    "garbage_tail", "structured_tail", "structured_tail", "none"))
     n = len(stored)
+    if f == "structured_tail":
+        if content is None:
+            f = "garbage_tail"
+        else:
+            data, d = structured_tail(rng, stored, content, cont)
+            d.update({"fault": f, "of": n})
+            return name, data, d
     if f == "truncate":
         at = offset_class(rng, n)
         return name, stored[:at], {"fault": f, "at": at, "of": n}
@@ -198,7 +226,7 @@ def evaluate(res, valids):
 
 def build_case(rng):
     name, content, kind, cont, stored = valid_base(rng)
-    fname, data, fdesc = inject(rng, name, stored)
+    fname, data, fdesc = inject(rng, name, stored, content, cont)
     fdesc.update({"base_kind": kind, "base_container": cont})
     nvalid = rng.choice((0, 0, 1, 1, 2, 3))
     valids = merge.gen_sources(rng, nvalid, 65536, max_msgs=8, allow_degenerate=False, letter_base=6) if nvalid else []
